@@ -262,7 +262,15 @@ Covers(r, s) ==   \* r carries everything the caller passed in s (optional struc
 
 (* ops: write / writestr (setParameter, setParameterFromString), do (execCommand: cache = result handed to the  *)
 (* caller), read, announce (spontaneous update of the driver), readerr / writeerr (driver raises)             *)
-E2EReceived(r) == r.op \in {"write", "writestr", "do"} => r.nrecv >= 1 /\ Covers(r.received, r.sent)
-E2ECache(r) == r.op \in {"write", "writestr", "do", "read", "announce"} => r.cache = r.returned
+(* bigwrite / bigread: the value is so large that its frame leaves the node in several pieces while another     *)
+(* thread of the node publishes updates of another parameter on the same activated connection                  *)
+E2EReceived(r) == r.op \in {"write", "writestr", "do", "bigwrite"} => r.nrecv >= 1 /\ Covers(r.received, r.sent)
+E2ECache(r) == r.op \in {"write", "writestr", "do", "read", "announce", "bigwrite", "bigread"} => r.cache = r.returned
 E2EError(r) == r.op \in {"readerr", "writeerr"} => r.cache = r.raised
+(* concurrent publishing on the connection: no malformed line (no handleError), every update of the other        *)
+(* parameter arrives once, in order, and the last one is what the client cache holds                           *)
+E2EQuiet(r) == r.op \in {"bigwrite", "bigread"} =>
+                  /\ r.nerrors = 0
+                  /\ r.conc_seen = r.conc_sent
+                  /\ r.conc_cache = r.conc_last
 =============================================================================
